@@ -67,65 +67,103 @@ struct Ctl {
 }
 
 thread_local! {
-    static CTL: RefCell<Ctl> = RefCell::new(Ctl::default());
+    // one control block per harness world on this thread; CUR selects the active one
+    static CTLS: RefCell<Vec<Ctl>> = RefCell::new(Vec::new());
+    static CUR: std::cell::Cell<usize> = std::cell::Cell::new(0);
 }
 
 lazy_static::lazy_static! {
     static ref PW_MEMO: Mutex<StdHashMap<(String, String), bool>> = Mutex::new(StdHashMap::new());
 }
 
-/// Activate the hooks on this thread for `slots` connections.
-pub(crate) fn activate(slots: usize) {
-    CTL.with(|c| {
+fn with_ctl<R>(f: impl FnOnce(&mut Ctl) -> R) -> R {
+    CTLS.with(|c| {
         let mut c = c.borrow_mut();
-        c.active = true;
-        c.cur = 0;
-        c.directive = vec![None; slots];
-        c.at_gate = vec![false; slots];
-        c.info = vec![None; slots];
-        c.consumed = vec![[0; 5]; slots];
-        c.pw_checks = 0;
-    });
+        let cur = CUR.with(|x| x.get());
+        if cur >= c.len() {
+            c.resize_with(cur + 1, Ctl::default);
+        }
+        f(&mut c[cur])
+    })
 }
 
-pub(crate) fn deactivate() {
-    CTL.with(|c| {
-        *c.borrow_mut() = Ctl::default();
+/// Activate the hooks on this thread for a new world with `slots` connections;
+/// returns the world's control-block id and selects it.
+pub(crate) fn activate(slots: usize) -> usize {
+    let id = CTLS.with(|c| {
+        let mut c = c.borrow_mut();
+        let id = match c.iter().position(|x| !x.active) {
+            Some(i) => i,
+            None => {
+                c.push(Ctl::default());
+                c.len() - 1
+            }
+        };
+        c[id] = Ctl {
+            active: true,
+            cur: 0,
+            directive: vec![None; slots],
+            at_gate: vec![false; slots],
+            info: vec![None; slots],
+            consumed: vec![[0; 5]; slots],
+            pw_checks: 0,
+        };
+        id
+    });
+    CUR.with(|x| x.set(id));
+    id
+}
+
+/// Select which world's control block the hooks on this thread talk to.
+pub(crate) fn select(id: usize) {
+    CUR.with(|x| x.set(id));
+}
+
+pub(crate) fn deactivate(id: usize) {
+    CTLS.with(|c| {
+        let mut c = c.borrow_mut();
+        if id < c.len() {
+            c[id] = Ctl::default();
+        }
     });
 }
 
 pub(crate) fn is_active() -> bool {
-    CTL.with(|c| c.borrow().active)
+    CTLS.with(|c| {
+        let c = c.borrow();
+        let cur = CUR.with(|x| x.get());
+        cur < c.len() && c[cur].active
+    })
 }
 
 /// Tell the hooks which connection slot is about to be polled.
 pub(crate) fn set_current(slot: usize) {
-    CTL.with(|c| c.borrow_mut().cur = slot);
+    with_ctl(|c| c.cur = slot);
 }
 
 /// Give connection `slot` one directive; it is consumed by its next gate pass.
 pub(crate) fn direct(slot: usize, d: Directive) {
-    CTL.with(|c| c.borrow_mut().directive[slot] = Some(d));
+    with_ctl(|c| c.directive[slot] = Some(d));
 }
 
 pub(crate) fn pending_directive(slot: usize) -> Option<Directive> {
-    CTL.with(|c| c.borrow().directive[slot])
+    with_ctl(|c| c.directive[slot])
 }
 
 pub(crate) fn at_gate(slot: usize) -> bool {
-    CTL.with(|c| c.borrow().at_gate[slot])
+    with_ctl(|c| c.at_gate[slot])
 }
 
 pub(crate) fn conn_info(slot: usize) -> Option<ConnInfo> {
-    CTL.with(|c| c.borrow().info[slot].clone())
+    with_ctl(|c| c.info[slot].clone())
 }
 
 pub(crate) fn consumed(slot: usize) -> [u64; 5] {
-    CTL.with(|c| c.borrow().consumed[slot])
+    with_ctl(|c| c.consumed[slot])
 }
 
 pub(crate) fn pw_checks() -> u64 {
-    CTL.with(|c| c.borrow().pw_checks)
+    with_ctl(|c| c.pw_checks)
 }
 
 // Non-destructive peek at the KILL notice: a delivered value is moved into a
@@ -205,10 +243,9 @@ pub(crate) async fn gate(cs: &mut ConnState) -> Option<Guard> {
         return None;
     }
     let (slot, d) = std::future::poll_fn(|_cx| {
-        CTL.with(|c| {
-            let mut c = c.borrow_mut();
+        let kp = peek_kill(cs);
+        with_ctl(|c| {
             let slot = c.cur;
-            let kp = peek_kill(cs);
             c.info[slot] = Some(make_info(cs, kp));
             if let Some(d) = c.directive[slot].take() {
                 c.at_gate[slot] = false;
@@ -281,8 +318,7 @@ pub(crate) fn ungate(cs: &mut ConnState, g: Option<Guard>) {
         if let Some(r) = g.dns_lookup_receiver.take() {
             cs.dns_lookup_receiver = r;
         }
-        CTL.with(|c| {
-            let mut c = c.borrow_mut();
+        with_ctl(|c| {
             if c.active && g.slot < c.consumed.len() {
                 if let Some(d) = g.directive {
                     c.consumed[g.slot][d as usize] += 1;
@@ -301,7 +337,7 @@ pub(crate) async fn password_hook(password: &str, hash_str: &str) -> Option<bool
     if !is_active() {
         return None;
     }
-    CTL.with(|c| c.borrow_mut().pw_checks += 1);
+    with_ctl(|c| c.pw_checks += 1);
     tokio::task::yield_now().await;
     let key = (password.to_string(), hash_str.to_string());
     if let Some(r) = PW_MEMO.lock().unwrap().get(&key) {
